@@ -204,6 +204,12 @@ func (root *Root) resolve(
 		if !matched && lastErr != nil {
 			return nil, []error{lastErr}
 		}
+		if !matched {
+			// All the members are bound to Go types and the Go type of the
+			// value is none of them. There is no object of the union to
+			// resolve, an error and null and not an empty object.
+			return nil, []error{resWarn(field.line, field.col, "a %T is not a member of union %s", obj, tt.Name())}
+		}
 	default:
 		// Validation makes sure all output types are valid so no need to
 		// check again here. The worse case is that null is returned if
